@@ -272,7 +272,7 @@ CHECKS = {
         "bin": "c14",
         "quick": cfgs(["dflt", "rdxfmt"]),
         "thorough": cfgs(["dflt", "cmp", "rdxfmt", "cmprdxfmt"]),
-        "rule": "float values (floats nearest to every 1-2 digit decimal at every exponent and their neighbours, 2 mantissa patterns per binade, carry "
+        "rule": "digits written (zero padding included) <= max_significant_digits unless the integral part plus the mandatory single fraction digit needs more; float values (floats nearest to every 1-2 digit decimal at every exponent and their neighbours, 2 mantissa patterns per binade, carry "
                 "shapes 9.99.., 0.0999.., 99999.5, 1.00..05 at every length 1..17, landmarks; every 9th negated) x the option product OPT_w (max / min "
                 "significant digits, Round / Truncate, trim_floats, positive and negative exponent breaks) x formats {STANDARD, no / required exponent "
                 "notation, no exponent without fraction; radix 2, 3, 16, 36 and their notation variants}. Oracle R-wopts, relative to the DEFAULT "
